@@ -322,6 +322,27 @@ def prop_copy_flow(ch, ctx):
                 ctx.fail(f'copy_flow|{region}|not-moved', f'{nme} requested but still in source')
             if stot[c] and not req and not _close(src_after[c], stot[c]):
                 ctx.fail(f'copy_flow|{region}|moved-unrequested', f'{nme} not requested but source changed')
+    # a single-phase source copied into a MultiStream with an explicit phase argument
+    if dkind == 'M' and phase is not ... and src['kind'] == 'S':
+        sph = src['phases'][0]
+        same = (phase == sph)          # both labels are phases of the destination, so no case-twin aliasing
+        da = vs.by_phase(d)
+        ctx.cell(f'copy:M<-S,phase={"same" if same else "other"},excl={int(exclude)}')
+        for nme in names:
+            c = cas_of[nme]; b = stot[c]
+            if not b: continue
+            selected = (nme in chosen) if same else False      # (phase, IDs) selects nothing of a source in another phase
+            copied = selected != exclude
+            if copied:
+                if src_after[c] != 0:
+                    ctx.fail(f'copy_flow|{region},same={int(same)}|duplicated', f'{nme}: copied to the destination ({da[sph][c]!r}) but still {src_after[c]!r} in the source')
+                if not _close(da[sph][c], b):
+                    ctx.fail(f'copy_flow|{region},same={int(same)}|lost', f'{nme}: source had {b!r} in {sph}, destination row has {da[sph][c]!r}')
+            else:
+                if not _close(src_after[c], b):
+                    ctx.fail(f'copy_flow|{region},same={int(same)}|lost', f'{nme}: not selected, but the source went from {b!r} to {src_after[c]!r}')
+                if da[sph][c] != 0 and not _close(da[sph][c], dest_before[sph][c]):
+                    ctx.fail(f'copy_flow|{region},same={int(same)}|duplicated', f'{nme}: kept in the source but destination row {sph} now has {da[sph][c]!r}')
     # per-phase bookkeeping when one phase of a multi-phase pair is moved
     if dkind == 'M' and phase is not ... and src['kind'] == 'M':
         sa = vs.by_phase(s); da = vs.by_phase(d)
@@ -347,6 +368,10 @@ def prop_scale(ch, ctx):
     s = vs.build(sp)
     a0 = vs.dense(s).copy()
     region = f'kind={vs.kind_tag(sp)},op={op}'
+    preview = ch.bool('mass.view.before')   # a mass view handed out earlier must show the scaled flows too
+    if preview:
+        _ = s.imass.data.to_array(); _ = s.mass
+        ctx.cell('scale:mass-view-before')
     if op in ('F_mol', 'F_mass'):
         if not a0.any(): ctx.reject('empty stream has no total to rescale')
         if k == 0: k = 0.25
@@ -367,6 +392,11 @@ def prop_scale(ch, ctx):
         ctx.fail(f'scale.{op}|{region}|mismatch', f'got {got.tolist()} want {want.tolist()}')
     if op in ('mul', 'rmul', 'div') and not np.array_equal(vs.dense(s), a0):
         ctx.fail(f'scale.{op}|{region}|operand-modified', 'binary scaling changed its operand')
+    MW = np.array(r.chemicals.MW, float)
+    gm = r.imass.data.to_array()
+    gm = gm.reshape(1, -1) if gm.ndim == 1 else gm
+    if gm.shape != want.shape or not np.allclose(gm, want * MW, rtol=1e-12, atol=0):
+        ctx.fail(f'scale.{op}|{region},view={int(preview)}|mass-view', f'mass flows {gm.tolist()} want mol*MW {(want * MW).tolist()}')
     if a0.any():
         ctx.nontriv(['scale', op, skey(sp), k in (0.0, 1.0)])
 
